@@ -26,7 +26,7 @@ def _case(draw, max_n, decades=1.0, anchored=False):
     pl = draw(zoo.placement(max_offset=10.0, scale_decades=decades))
     n = 80
     out = {"cvx": cvx, "place": pl, "perm": draw(zoo.noise(n)), "perm2": draw(zoo.noise(n)),
-           "int_t": [draw(st.integers(-30, 30)) for _ in range(3)]}
+           "int_t": [draw(st.integers(-30, 30)) for _ in range(3)], "vdtype": draw(st.sampled_from(["float", "float", "int64", "int32", "list"]))}
     if anchored:
         out["anchor"] = draw(st.sampled_from(zoo.ANCHORS))
         out["anchor_k"] = draw(st.integers(0, 40))
@@ -36,7 +36,14 @@ def _case(draw, max_n, decades=1.0, anchored=False):
 def _measures(rec, V, tag, sig0):
     """Compare one ConvexPolyhedron built from V (in this order) with the oracle."""
     n = len(V)
-    poly = call(S.ConvexPolyhedron, V.copy())
+    vd = sig0.get("vertices_as", "float")
+    if vd in ("int64", "int32"):  # integer-typed coordinates (only drawn for integer-valued data)
+        arg = V.astype(getattr(np, vd))
+    elif vd == "list":
+        arg = [[float(x) for x in v] for v in V]
+    else:
+        arg = V.copy()
+    poly = call(S.ConvexPolyhedron, arg)
     if isinstance(poly, Raised):
         rec.fail("construct", dict(sig0, type=poly.type), msg=poly.msg, tag=tag)
         return None
@@ -110,6 +117,12 @@ def _convex(case, rec):
     D = diameter(V)
     off = float(np.linalg.norm(V.mean(axis=0))) / D
     sig0 = {"kind": case["cvx"]["kind"], "exact": str(exact)}
+    vd = case.get("vdtype", "float")
+    if vd in ("int64", "int32") and not exact:
+        vd = "float"
+    if vd != "float":
+        sig0["vertices_as"] = vd
+        rec.label("vertices_as:" + vd)
     rec.concrete = {"vertices": V1}
     r1 = _measures(rec, V1, "order1", sig0)
     if r1 is None:
